@@ -143,6 +143,18 @@ def t1c(F, res):
                 else:
                     res.add([finding("T1c", key, w, "blanket impl<T: Composite> Apply::%s does not recurse with %s over Composite::%s" % (m, m, need))])
                 continue
+            if st.startswith("(") and st.endswith(")") and not whole:
+                # a tuple of IR nodes (`impl Apply for (Expression, Expression)`): every component recurses with the method
+                from .c08 import split_tuple
+                comps = split_tuple(st[1:-1])
+                tflows, _ = e3.self_field_flows(f, "tuple")
+                missing = [i for i in range(len(comps))
+                           if not any(c.endswith("::" + m) for c in (tflows.get(("", str(i))) or {}).get("calls", ()))
+                           and not (tflows.get(("", str(i))) or {}).get("closure")]
+                if missing:
+                    res.add([finding("T1c", key, w, "the impl of %s::%s on the tuple %s never calls %s on component %s: children in that position are invisible to the traversal" % (
+                        tr.split("::")[-1], m, st, m, ", ".join(".%d" % i for i in missing)))])
+                    continue
             if whole:
                 res.add([finding("T1c", key, w, "container impl returns self unchanged (elements not visited)")])
             elif recursive:
